@@ -1050,6 +1050,30 @@ def all_limits(ctx):
     rs = M(ctx, "Memory.reduce_size")
     es = [c for c in calls_in(rs) if call_name(c) == "self.store_backend.enforce_store_limits"]
     ctx.check(bool(es) and [dotted(a) for a in es[0].args] == ["bytes_limit", "items_limit", "age_limit"], es[0] if es else rs, "reduce_size forwards the three limits in order")
+    # ... and gives up early only when NO limit was given (0 is a limit: "keep nothing"), decided over the fact table of
+    # (limit given?) x (limit is zero?) for the three limits
+    if es:
+        from ..table import taken, Unknown
+        grs = cfg_of(rs)
+        import itertools as _it
+        lim = ["bytes_limit", "items_limit", "age_limit"]
+        wrong = None
+        try:
+            for vals in _it.product(("none", "zero", "positive"), repeat=3):
+                env = {"self.store_backend is None": False, "self.store_backend": "<backend>"}
+                for nme, v in zip(lim, vals):
+                    env[nme] = None if v == "none" else (0 if v == "zero" else 7)
+                    env["%s is None" % nme] = v == "none"
+                    env["%s is not None" % nme] = v != "none"
+                reached = taken(grs, es[0], env, rs)
+                if reached != any(v != "none" for v in vals):
+                    wrong = dict(zip(lim, vals))
+                    break
+        except Unknown as e:
+            raise Undecidable("reduce_size: early-exit tests not understood: %s" % e)
+        ctx.check(wrong is None, es[0], "the limits are enforced whenever at least one is given (27 rows of the fact table)",
+                  "with %s reduce_size %s: a limit of 0 (keep nothing) must still be enforced, and no limit at all means nothing to do" % (
+                      wrong, "does nothing" if wrong and any(v != "none" for v in wrong.values()) else "runs the eviction"))
     en = S(ctx, "StoreBackendMixin.enforce_store_limits")
     gd = [c for c in calls_in(en) if call_name(c) == "self._get_items_to_delete"]
     ctx.check(bool(gd) and [dotted(a) for a in gd[0].args] == ["bytes_limit", "items_limit", "age_limit"], gd[0] if gd else en, "enforce_store_limits forwards the three limits in order")
